@@ -626,7 +626,7 @@ def oracle_h(c, obs):
             helper_fams = set(awaiting)
             fresh = {}
         elif t == 'ann' and sess is not None and e[1] in sess[1]:
-            fresh[(e[1], e[2])] = gen
+            fresh[(e[1], e[2])] = (gen, e[3])
         elif t == 'eor' and sess is not None and sess[2]:
             awaiting.discard(e[1]); helper_fams.discard(e[1])
         elif t == 'down' and sess is not None:
@@ -638,7 +638,15 @@ def oracle_h(c, obs):
                 helper_fams = (grf | (llf if (sess[2] is None or True) else set()))
             else:
                 helper_fams = set()
-            # every family outside the negotiated ones is removed at once; a drop that is not eligible retains nothing
+            # the routes of the negotiated families are kept (and marked stale) when helper mode applies ...
+            have_now = set((r[0], r[1]) for r in routes)
+            for (ff, rid), (g0, no_llgr) in fresh.items():
+                if ff in helper_fams and (ff, rid) not in have_now and not (sess[2] is None and no_llgr):
+                    return 'step %d: route (%d, %d) of a negotiated family was not kept when the session dropped (reason %d)' % (k, ff, rid, e[1])
+            for r in routes:
+                if r[0] in helper_fams and not r[3]:
+                    return 'step %d: kept route (%d, %d) is not marked stale' % (k, r[0], r[1])
+            # ... every family outside the negotiated ones is removed at once; a drop that is not eligible retains nothing
             for r in routes:
                 if r[0] not in helper_fams:
                     return 'step %d: route of family %d retained after a drop (reason %d) that does not allow it' % (k, r[0], e[1])
